@@ -34,6 +34,9 @@ def cases(tier, seed):
     loader.load()
     from checks import catalog as K
     m = bounds(tier)["m"]
+    for which in ("onehot-ignore", "onehot-ignore-drop", "onehot-infrequent", "kbins-onehot"):
+        for kind in ("reg", "clf"):
+            yield {"cls": "Piecewise" + ("Regressor" if kind == "reg" else "Classifier"), "variant": "encoder binner", "binner": which, "kind": kind, "m": m}
     for name, e in K.catalogue().items():
         if not e["fit"] or e["kind"] == "ts":
             continue
@@ -88,11 +91,88 @@ def _tie_rows(est, P):
     return out
 
 
+def _encoder_binner(case):
+    """Piecewise estimators whose binner is an encoder with a VARYING number of active columns per row (OneHotEncoder ignoring unknown
+    categories, with or without a dropped level; KBinsDiscretizer one-hot as the uniform control): every sub-batch (all 2^m - 1 subsets of
+    the m probe rows, in given and reversed order) predicts each row as the row alone; repeated calls and a pickle copy agree bitwise."""
+    import itertools
+    import pickle
+    import warnings
+    import numpy
+    from sklearn.preprocessing import OneHotEncoder, KBinsDiscretizer
+    from sklearn.linear_model import LinearRegression, LogisticRegression
+    from sklearn.tree import DecisionTreeClassifier
+    from mlinsights.mlmodel import PiecewiseRegressor, PiecewiseClassifier
+    warnings.simplefilter("ignore")
+    viol, sigs = [], set()
+    which, kind = case["binner"], case["kind"]
+    cls = "PiecewiseRegressor" if kind == "reg" else "PiecewiseClassifier"
+
+    def bad(kind_, msg):
+        sig = "%s|%s|binner=%s" % (cls, kind_, which)
+        if sig not in sigs:
+            sigs.add(sig)
+            viol.append({"sig": sig, "msg": msg[:900]})
+
+    def binner():
+        if which == "onehot-ignore":
+            return OneHotEncoder(handle_unknown="ignore")
+        if which == "onehot-ignore-drop":
+            return OneHotEncoder(handle_unknown="ignore", drop="first")
+        if which == "onehot-infrequent":
+            return OneHotEncoder(handle_unknown="infrequent_if_exist", min_frequency=2)
+        return KBinsDiscretizer(n_bins=3, encode="onehot", strategy="uniform")
+    X = numpy.array([[a, b, (a + 2 * b + c) % 3] for a in range(3) for b in range(3) for c in range(2)], dtype=numpy.float64)
+    X = numpy.vstack([X, X[:9]])
+    y = 100.0 * X[:, 0] + 10.0 * X[:, 1] + X[:, 2] + 0.25 * numpy.arange(len(X))
+    yc = ((X[:, 0] + X[:, 1] + numpy.arange(len(X))) % 2).astype(int)
+    try:
+        if kind == "reg":
+            est = PiecewiseRegressor(binner=binner(), estimator=LinearRegression()).fit(X, y)
+            meths = ["predict"]
+        else:
+            est = PiecewiseClassifier(binner=binner(), estimator=DecisionTreeClassifier(max_depth=2, random_state=0), random_state=0).fit(X, yc)
+            meths = ["predict", "predict_proba"]
+    except Exception as ex:
+        return {"viol": [{"sig": "%s|fit raises %s|binner=%s" % (cls, type(ex).__name__, which), "msg": str(ex)[:300]}], "nontrivial": False}
+    P = numpy.array([[1, 2, 0], [1, 7, 0], [7, 7, 2], [2, 0, 1], [0, 1, 9], [5, 2, 9], [0, 0, 0]], dtype=numpy.float64)[:case["m"]]
+    cnt = 0
+    cp = pickle.loads(pickle.dumps(est))
+    for meth in meths:
+        try:
+            single = [numpy.asarray(getattr(est, meth)(P[i:i + 1]))[0] for i in range(len(P))]
+        except Exception as ex:
+            bad("%s raises %s on a single row" % (meth, type(ex).__name__), str(ex)[:300])
+            continue
+        for r in range(1, len(P) + 1):
+            for idx in itertools.combinations(range(len(P)), r):
+                for order in (idx, idx[::-1]):
+                    cnt += 1
+                    B = P[list(order)]
+                    try:
+                        out = numpy.asarray(getattr(est, meth)(B))
+                        out2 = numpy.asarray(getattr(est, meth)(B))
+                        outp = numpy.asarray(getattr(cp, meth)(B))
+                    except Exception as ex:
+                        bad("%s raises %s on a batch whose rows predict alone" % (meth, type(ex).__name__), "rows %r: %s" % (list(order), str(ex)[:200]))
+                        continue
+                    exp = numpy.array([single[i] for i in order])
+                    if out.shape != exp.shape or not numpy.allclose(out, exp, rtol=1e-9, atol=1e-12):
+                        bad("%s of a row depends on the other rows of the batch" % meth, "rows %r: batch %r, alone %r" % (list(order), out.tolist()[:4], exp.tolist()[:4]))
+                    if not numpy.array_equal(out, out2):
+                        bad("%s not repeatable" % meth, "rows %r" % (list(order),))
+                    if not numpy.array_equal(out, outp):
+                        bad("%s differs after a pickle round trip" % meth, "rows %r" % (list(order),))
+    return {"viol": viol, "nontrivial": True, "states": cnt, "transitions": cnt * 3, "outcome": (cls, which)}
+
+
 def run_case(case):
     import pickle
     import warnings
     import numpy
     from checks import catalog as K
+    if "binner" in case:
+        return _encoder_binner(case)
     from mlinsights.mlmodel.sklearn_testing import clone_with_fitted_parameters
 
     warnings.simplefilter("ignore")
